@@ -5,6 +5,7 @@ From Coq Require Import Sorting.Permutation Sorting.Sorted.
 From Coq Require Import Strings.Byte.
 Require Import CU.model.Prim CU.model.Types CU.model.Unicode CU.model.Codec CU.model.Card CU.model.Dates CU.model.Iso.
 Require Import CU.spec.IsoSpec CU.proofs.NumProofs CU.proofs.PdsProofs.
+Require CU.gen.GenConfig CU.gen.GenCodec.
 Import ListNotations.
 Open Scope nat_scope.
 
@@ -1282,11 +1283,32 @@ Qed.
 Lemma ir_proc_eqb_pds : forall p, proc_eqb p PPDS = true -> p = PPDS.
 Proof. intros p H. destruct p; try discriminate. reflexivity. Qed.
 
+(* NB: [pds_bits] and [carriers_okb] are only ever unfolded in the conclusion: converting a hypothesis makes the
+   kernel evaluate [filter _ (seq 0 200)] on a variable configuration, which is exponential *)
+Lemma ir_pds_bits_in : forall cfg f, In f (pds_bits cfg) <->
+  f < 200 /\ match cfg_get cfg f with Some c => proc_eqb (f_proc c) PPDS | None => false end = true.
+Proof.
+  intros cfg f. unfold pds_bits. rewrite filter_In, in_seq. split; intros [H1 H2]; (split; [lia|exact H2]).
+Qed.
+
+Lemma ir_pds_bits_nodup : forall cfg, NoDup (pds_bits cfg).
+Proof. intros cfg. unfold pds_bits. apply NoDup_filter. apply seq_NoDup. Qed.
+
+Lemma ir_carriers_forall : forall cfg, carriers_okb cfg = true -> forall f, In f (pds_bits cfg) ->
+  ((2 <=? f) && (f <=? 127) &&
+   match cfg_get cfg f with
+   | Some c => match f_type c, f_ptype c with LLLVAR, PTStr => true | _, _ => false end
+   | None => false
+   end) = true.
+Proof.
+  intros cfg. unfold carriers_okb. rewrite forallb_forall. intros H. exact H.
+Qed.
+
 Lemma ir_carrier_cfg : forall cfg f, carriers_okb cfg = true -> In f (pds_bits cfg) ->
   2 <= f <= 127 /\ exists c, cfg_get cfg f = Some c /\ f_type c = LLLVAR /\ f_ptype c = PTStr /\ f_proc c = PPDS.
 Proof.
-  intros cfg f Hc Hin. unfold carriers_okb in Hc. rewrite forallb_forall in Hc. specialize (Hc f Hin).
-  unfold pds_bits in Hin. apply filter_In in Hin. destruct Hin as [_ Hp].
+  intros cfg f Hc0 Hin. pose proof (ir_carriers_forall cfg Hc0 f Hin) as Hc.
+  apply ir_pds_bits_in in Hin. destruct Hin as [_ Hp].
   apply andb_true_iff in Hc. destruct Hc as [Hc H3].
   apply andb_true_iff in Hc. destruct Hc as [H1 H2]. apply Nat.leb_le in H1, H2.
   split; [lia|]. destruct (cfg_get cfg f) as [c|]; [|discriminate].
@@ -1296,8 +1318,7 @@ Qed.
 
 Lemma ir_in_pds_bits : forall cfg b c, cfg_get cfg b = Some c -> f_proc c = PPDS -> b < 200 -> In b (pds_bits cfg).
 Proof.
-  intros cfg b c Hc Hp Hb. unfold pds_bits. apply filter_In. split; [apply in_seq; lia|].
-  rewrite Hc, Hp. reflexivity.
+  intros cfg b c Hc Hp Hb. apply ir_pds_bits_in. split; [exact Hb|]. rewrite Hc, Hp. reflexivity.
 Qed.
 
 Lemma ir_encodable_sub : forall cd g, ir_digits_enc cd -> Forall (ir_tv_ok cd) g ->
@@ -1317,3 +1338,125 @@ Proof.
   unfold len_okb. rewrite Ht. cbn [is_var vmax is_ok andb].
   rewrite andb_true_r. apply andb_true_iff. split; apply Nat.leb_le; lia.
 Qed.
+
+Lemma ir_pair_inj : forall (t t' s : str) (x : value), (KPDS t, VStr s) = (KPDS t', x) -> t = t' /\ VStr s = x.
+Proof. intros t t' s x H. inversion H. auto. Qed.
+
+Lemma ir_bit_range_lt : forall b, In b bit_range -> b < 200.
+Proof. intros b H. unfold bit_range in H. apply in_seq in H. lia. Qed.
+
+Lemma ir_roundtrip_pds : forall cfg cd hexbm m,
+  wf_cfgb cfg = true -> codec_okb cd = true -> wf_msgb cfg cd m = true -> ir_has_pds m = true ->
+  exists b d, dumps cfg cd hexbm m = Ok b /\ loads cfg cd hexbm b = Ok d /\
+    (forall k v, lookup m k = Some v -> lookup d k = Some (expected cfg k v)) /\
+    (forall k, lookup d k <> None -> lookup m k <> None \/ derived_key cfg k = true).
+Proof.
+  intros cfg cd hexbm m Hcfg Hcd Hm Hhp.
+  destruct (ir_wf_msg_parts cfg cd m Hm) as [Hnd [[mti [Hmti [Hl4 [Hasc Henc]]]] [Hent [Hdig Hp]]]].
+  destruct Hp as [Hp|[_ [Hcar [cs [Hcs Hlen]]]]]; [congruence|].
+  rewrite Hhp in Hent.
+  destruct (ir_pds_plan cfg cd m Hnd Hent) as [pds [groups [Hpnd [Hpok [Hpin [Hconcat [Hpd Hclen]]]]]]].
+  rewrite Hpd in Hcs. injection Hcs as Hcseq.
+  destruct (ir_assignment_in m cs (pds_bits cfg) Hlen (ir_pds_bits_nodup cfg)) as [m1 [Hm1 [A1 [A2 A3]]]].
+  set (asg := firstn (length cs) (pds_bits cfg)) in *.
+  assert (Hasg : forall f, In f asg -> In f (pds_bits cfg)).
+  { intros f Hf. apply ir_firstn_in in Hf. destruct Hf as [i [_ Hi]]. apply (nth_error_In _ _ Hi). }
+  assert (Hgrp : forall g, In g groups ->
+     Forall (ir_tv_ok cd) g /\ 1 <= length (flat_map sub_of g) <= 999 /\
+     pds_to_dict (flat_map sub_of g) = Ok (map ir_kv g) /\ (forall tv, In tv g -> In tv pds)).
+  { intros g Hg.
+    assert (Hincl : forall tv, In tv g -> In tv pds).
+    { intros tv Htv. rewrite <- Hconcat. apply in_concat. exists g. auto. }
+    assert (Hok : Forall (ir_tv_ok cd) g).
+    { apply Forall_forall. intros tv Htv. rewrite Forall_forall in Hpok. apply Hpok. apply Hincl. exact Htv. }
+    split; [exact Hok|]. split.
+    - rewrite Forall_forall in Hclen. apply Hclen. apply in_map. exact Hg.
+    - split; [|exact Hincl]. apply c12_recovery.
+      + apply (ir_nodup_concat fst groups g); [rewrite Hconcat; exact Hpnd|exact Hg].
+      + eapply Forall_impl; [|exact Hok]. intros tv [H1 [H2 _]]. split; [exact H1|]. apply (Nat.le_trans _ 992); [exact H2|lia]. }
+  assert (Huniq : forall tv tv', In tv pds -> In tv' pds -> tag4 (fst tv) = tag4 (fst tv') -> tv = tv').
+  { intros tv tv' H1 H2 E. apply (ir_nodup_map_inj fst pds tv tv' Hpnd H1 H2).
+    rewrite Forall_forall in Hpok. apply tag4_inj; [apply (Hpok _ H1)|apply (Hpok _ H2)|exact E]. }
+  assert (H4 : forall n c, cfg_get cfg n = Some c -> f_proc c <> PPDS -> lookup m1 (KDE n) = lookup m (KDE n)).
+  { intros n c Hc Hnp. apply A3. intros f Hf E. inversion E; subst f.
+    destruct (ir_carrier_cfg cfg n Hcar (Hasg _ Hf)) as [_ [c' [Hc' [_ [_ Hp']]]]]. congruence. }
+  assert (H3 : forall n v, lookup m (KDE n) = Some v -> lookup m1 (KDE n) = Some v).
+  { intros n v Hl. pose proof (Hent _ _ (ir_lookup_in _ _ _ Hl)) as Hw.
+    destruct (ir_entry_wf_field cfg cd true n v Hcfg Hw) as [_ [c [Hc [_ [_ Hnp]]]]].
+    rewrite (H4 n c Hc (Hnp eq_refl)). exact Hl. }
+  assert (Hcar_of : forall b c0 v, cfg_get cfg b = Some c0 -> f_proc c0 = PPDS ->
+            lookup m1 (KDE b) = Some v -> exists g, In g groups /\ v = VStr (flat_map sub_of g)).
+  { intros b c0 v Hc0 Hp0 Hl.
+    destruct (in_dec Nat.eq_dec b asg) as [Hin|Hnin].
+    - destruct (A2 b Hin) as [c [Hc1 Hc2]]. rewrite Hl in Hc2. inversion Hc2; subst v.
+      rewrite <- Hcseq in Hc1. apply in_map_iff in Hc1. destruct Hc1 as [g [Eg Hg]]. exists g. subst c. auto.
+    - exfalso. rewrite A3 in Hl.
+      + pose proof (Hent _ _ (ir_lookup_in _ _ _ Hl)) as Hw.
+        destruct (ir_entry_wf_field cfg cd true b v Hcfg Hw) as [_ [c [Hc [_ [_ Hnp]]]]].
+        rewrite Hc0 in Hc. inversion Hc; subst c. exact (Hnp eq_refl Hp0).
+      + intros f Hf E. inversion E; subst f. contradiction. }
+  apply (ir_assemble cfg cd hexbm true m m1 cs mti Hcd Hdig Hent Hmti Hl4 Hasc Henc).
+  - rewrite Hpd, Hcseq. reflexivity.
+  - exact Hm1.
+  - intros b v Hb Hl.
+    destruct (in_dec Nat.eq_dec b asg) as [Hin|Hnin].
+    + destruct (ir_carrier_cfg cfg b Hcar (Hasg _ Hin)) as [_ [c [Hc [Ht [Hpt Hp]]]]].
+      destruct (Hcar_of b c v Hc Hp Hl) as [g [Hg Ev]]. subst v.
+      destruct (Hgrp g Hg) as [G1 [G2 [G3 _]]].
+      exists c. split; [exact Hc|]. split; [apply (ir_cfg_wf cfg b c Hcfg Hc)|].
+      apply (ir_chunk_wf cd c _ _ Ht Hpt Hp (ir_encodable_sub cd g Hdig G1) G2 G3).
+    + rewrite A3 in Hl.
+      * pose proof (Hent _ _ (ir_lookup_in _ _ _ Hl)) as Hw.
+        destruct (ir_entry_wf_field cfg cd true b v Hcfg Hw) as [_ [c [Hc [Hwc [Hwv _]]]]]. exists c. auto.
+      * intros f Hf E. inversion E; subst f. contradiction.
+  - exact H3.
+  - exact H4.
+  - intros ents Hents t v Hin.
+    destruct (Hpin t v Hin) as [tv [Htv [Et Ev]]]. subst t v.
+    rewrite <- Hconcat in Htv. apply in_concat in Htv. destruct Htv as [g [Hg Htvg]].
+    destruct (Hgrp g Hg) as [G1 [G2 [G3 G4]]].
+    split.
+    + destruct (A1 (flat_map sub_of g)) as [f [Hf1 Hf2]].
+      { rewrite <- Hcseq. apply in_map. exact Hg. }
+      destruct (ir_carrier_cfg cfg f Hcar (Hasg _ Hf1)) as [Hfr [c [Hc [Ht [Hpt Hp]]]]].
+      assert (Hpres : In f (filter (ir_pres m1) bit_range)).
+      { apply filter_In. split; [apply ir_in_bit_range; lia|]. unfold ir_pres. rewrite Hf2.
+        destruct (flat_map sub_of g); [cbn [length] in G2; lia|reflexivity]. }
+      destruct (ir_forall2_concat_of _ _ _ _ Hents Hpres) as [es [[c' [v' [Hc' [Hv' Hfe]]]] Hsub]].
+      rewrite Hc in Hc'. inversion Hc'; subst c'. rewrite Hf2 in Hv'. inversion Hv'; subst v'.
+      apply Hsub. apply (ir_fent_sub f c _ es _ _ _ Hfe Hp G3).
+      * apply (in_map ir_kv g tv Htvg).
+      * intros x' Hx'. apply in_map_iff in Hx'. destruct Hx' as [tv' [E' Htv']].
+        unfold ir_kv in E'. apply ir_pair_inj in E'. destruct E' as [E1 E2]. subst x'.
+        assert (Etv : tv' = tv) by (apply Huniq; [apply G4; exact Htv'|apply G4; exact Htvg|exact E1]).
+        subst tv'. reflexivity.
+    + intros x Hx.
+      destruct (ir_forall2_concat_in _ _ _ _ Hents Hx) as [b [es [Hb [[c [v [Hc [Hv Hfe]]]] Hxe]]]].
+      destruct (ir_fent_in _ _ _ _ _ _ Hfe Hxe) as [[K _]|[[Hp [_ [s [sub [Ev [Hsub Hxs]]]]]]|K]];
+        try discriminate.
+      subst v. destruct (Hcar_of b c _ Hc Hp Hv) as [g' [Hg' Eg']]. inversion Eg'; subst s.
+      destruct (Hgrp g' Hg') as [G1' [G2' [G3' G4']]]. rewrite G3' in Hsub. inversion Hsub; subst sub.
+      apply in_map_iff in Hxs. destruct Hxs as [tv' [E' Htv']].
+      unfold ir_kv in E'. apply ir_pair_inj in E'. destruct E' as [E1 E2]. subst x.
+      assert (Etv : tv' = tv) by (apply Huniq; [apply G4'; exact Htv'|apply G4; exact Htvg|exact E1]).
+      subst tv'. reflexivity.
+Qed.
+
+(* ====================================================================== C01 *)
+
+Theorem c01_roundtrip : forall cfg cd hexbm m,
+  wf_cfgb cfg = true -> codec_okb cd = true -> wf_msgb cfg cd m = true ->
+  exists b d, dumps cfg cd hexbm m = Ok b /\ loads cfg cd hexbm b = Ok d /\
+    (forall k v, lookup m k = Some v -> lookup d k = Some (expected cfg k v)) /\
+    (forall k, lookup d k <> None -> lookup m k <> None \/ derived_key cfg k = true).
+Proof.
+  intros cfg cd hexbm m Hcfg Hcd Hm. destruct (ir_has_pds m) eqn:Hp.
+  - apply ir_roundtrip_pds; assumption.
+  - apply ir_roundtrip_nopds; assumption.
+Qed.
+
+(* the hypotheses hold for the packaged configuration and every generated codec table *)
+Theorem c01_packaged_domain :
+  wf_cfgb CU.gen.GenConfig.packaged_bit_config = true /\
+  forallb (fun nt => codec_okb (mkcodec (snd nt))) CU.gen.GenCodec.codec_tables = true.
+Proof. split; vm_compute; reflexivity. Qed.
